@@ -10,8 +10,9 @@ import RV.C04.ConstructLemmas
 
   Statements first, then what is proved:
     * `Statement_pushdown_unconditional` is what C04 literally asks (every well-formed query).  It is FALSE of the
-      pinned code: `pushdown_witness_K1/K2`, `pushdown_unconditional_witness` (known findings C04-K1, C04-K2: rdflib's
-      `_vars` annotation is not the exact set of variables a sub-pattern binds).
+      pinned code: `pushdown_witness_K1/K2/K4`, `pushdown_unconditional_witness` (known findings C04-K1, C04-K2: rdflib's
+      `_vars` annotation is not the exact set of variables a sub-pattern binds; C04-K4: EXISTS patterns outside
+      `Alg.existsOK` are evaluated under the solution instead of by substitution).
     * `pushdown : Statement_pushdown` (= `pushdown_partial`): under the decidable hypothesis `Alg.safe` push-down is
       exact for EVERY operator of the property — BGP incl. rdflib's re-ordering, lazy and non-lazy Join, Union,
       Filter, LeftJoin (with the re-check under `remember`), Extend, Values, Minus, Graph, sub-select, and
@@ -253,6 +254,21 @@ theorem pushdown_witness_K1 :
 theorem pushdown_witness_K2 :
     (Model.evalPart k2Data k2Data.dflt (Row.empty : Row 2) k2Pattern).length = 1 ∧
     (Spec.eval k2Data k2Data.dflt (Row.empty : Row 2) k2Pattern).length = 2 := by decide +kernel
+
+/-- K4: `{ ?v0 <10> ?v1 FILTER(EXISTS { { ?v0 <11> ?v2 FILTER(?v2 != ?v0) } }) }` — the nested-group filter inside the
+    EXISTS forgets `?v0` (the pattern is evaluated under the solution, its nodes are never annotated), §18.6 substitutes it -/
+def k4Pattern : Alg :=
+  .filter
+    (.exists false (.join false (.bgp [])
+      (.filter (.cmp .ne (.var 2) (.var 0)) (.join false (.bgp []) (.bgp [tp (.var 0) (.const (i 11)) (.var 2)])) [] false)))
+    (.bgp [tp (.var 0) (.const (i 10)) (.var 1)]) [0, 1] false
+def k4Data : Dataset := ⟨[(i 0, i 10, i 1), (i 0, i 11, i 2)], []⟩
+
+example : k4Pattern.safe = false := by decide
+
+theorem pushdown_witness_K4 :
+    (Model.evalPart k4Data k4Data.dflt (Row.empty : Row 3) k4Pattern).length = 0 ∧
+    (Spec.eval k4Data k4Data.dflt (Row.empty : Row 3) k4Pattern).length = 1 := by decide +kernel
 
 /-- the property as literally stated (no `Safe` hypothesis) does not hold of the code as it is -/
 theorem pushdown_unconditional_witness : ¬ Statement_pushdown_unconditional := by
